@@ -520,6 +520,21 @@ Theorem C09_block_head : forall (mc : mcard) (pw : list (string * list (string *
 Proof. exact block_text_head. Qed.
 Print Assumptions C09_block_head.
 
+(* Python's float() accepts the normalised density of every well-formed number
+   ([float_ok], tied exhaustively): constructCompositionT4's
+   float(normalize_float(density)) cannot raise ValueError on a cell card that
+   spells a number; with C09_normal_form_fixed the second normalisation is the
+   identity *)
+Theorem C09_normal_form_accepted : forall (n : number) (pad : nat) (m : marker),
+  wf_number n = true -> marker_ok n m = true ->
+  exists nd, normalize_float (spell n pad m) = Ok nd /\ float_ok nd = true /\
+             normalize_float nd = Ok nd.
+Proof.
+  intros n pad m W M. exists (normal_form n). split; [now apply norm_spell|].
+  split; [now apply float_ok_normal_form | now apply normal_form_fixed].
+Qed.
+Print Assumptions C09_normal_form_accepted.
+
 (* a composition that a live cell asks for IS in the written text: the block of
    every (material card, stored density) pair occurs in what writeT4Composition
    writes (with C09_block_head: under the name GEOMCOMP uses, and with
